@@ -28,8 +28,12 @@ from .. import core
 QUERIES = {
     # (no descendant segment here: on the "deep" document class those raise at evaluation time, see "evalerr")
     "valid": ["$.a", "$.k[?@.a == 'é' || @.a > 1]", "$[*]", "$.*[?match(@.a, '.*b')]", "$.k[0,0]", "$.nope", "$.k[*].a", "$", "$[?@]"],
-    "syntax": ["$.k[?@.a ==]", "$[", "$.k.", "$.k[?!!@.a]", "", " ", "\n"],
-    "type": ["$.k[?count(@.a, 'x')]", "$.k[?length(@.*) == 1]", "$.k[?match(@.a, 'b') == true]"],
+    "syntax": ["$.k[?@.a ==]", "$[", "$.k.", "$.k[?!!@.a]", "", " ", "\n",
+               # invalid queries laid out over several lines, or quoting text that contains a line break: still ONE diagnostic line
+               "$.k[?@.a ==\n]", "$[\n", "$.k\n.", "$['a' 'b\nc']", "$[0 \"b\nc\"]", "$.k[?!'b\rc']", "$['a\\\nb']", "$.k[?@.a == 'x\\\ry']",
+               "$.k%", "$[?@.a % 2 == 0]", "$.k{0}", "$.k[?@.a == 1 %s]"],
+    "type": ["$.k[?count(@.a, 'x')]", "$.k[?length(@.*) == 1]", "$.k[?match(@.a, 'b') == true]",
+             "$.k[?length(@.*)\n == 1]", "$.k[?\ncount(@.a)\n]", "$.k[?@.*\n==\n1]"],
     "name": ["$.k[?nosuch(@.a)]"],
     "index": [f"$.k[{2**53}]", f"$[1:{-2**53}]"],
     "evalerr": ["$..*", "$..a", "$..[?match(@, '.*b')]"],
@@ -94,6 +98,12 @@ def run_subprocess(argv, stdin_bytes, ioenc="utf-8"):
     return p.returncode, p.stdout.decode("utf-8", "surrogatepass" if ioenc == "utf-8" else "replace"), err, "Traceback (most recent call last)" in err
 
 
+def _env_snapshot(jp):
+    e = jp.DEFAULT_ENV
+    return {"max_recursion_depth": e.max_recursion_depth, "nondeterministic": e.nondeterministic, "min_int_index": e.min_int_index,
+            "max_int_index": e.max_int_index, "functions": sorted((k, type(v).__name__) for k, v in e.function_extensions.items())}
+
+
 def run(chk: core.Check, tier: str, seed: int) -> None:
     jp = core.import_repo()
     rng = random.Random(seed)
@@ -104,10 +114,15 @@ def run(chk: core.Check, tier: str, seed: int) -> None:
     if len(gens) != 960:
         raise core.MachineryError(f"expected 960 terminal states, got {len(gens)}")
     tmp = tempfile.mkdtemp(prefix="verif-cli-", dir=core.scratch())
+    before_env = _env_snapshot(jp)
     n_sub = 0
     for k, g in enumerate(gens):
         c = g["cfg"]
         q = rng.choice(QUERIES[c["q"]])
+        if c["q"] == "syntax" and c["qsrc"] == "inline" and k % 3 == 0:
+            # given inline the text is the query as it stands: blank space around a valid query makes it invalid
+            # (a query FILE is stripped, so these are used for -q only)
+            q = rng.choice([" $.a", "$.a ", "$.a\n", "  $  ", "\t$[0]", "$.k[0]\r\n"])
         doc = rng.choice(DOCS[c["d"]])
         raw = doc_bytes(c["d"], doc, rng)
         if c["d"] in ("ascii", "nonascii") and c["dsrc"] == "file" and not isinstance(doc, bytes) and k % 3 == 0:
@@ -215,6 +230,11 @@ def run(chk: core.Check, tier: str, seed: int) -> None:
                               {"config": plain["cfg"], "query": q, "document": raw.decode("utf-8", "replace"), "argv": ["-q", q],
                                "model": {k2: plain[k2] for k2 in ("out", "err", "status")},
                                "observed": {"status": status, "stdout": out[:300], "stderr": err[-600:], "traceback": tb}, "problems": problems})
+    # the front end keeps to itself: the module-level default environment is configured as before
+    after = _env_snapshot(jp)
+    if after != before_env:
+        chk.violation({"clause": "the command-line tool changed the module-level default environment"},
+                      {"before": before_env, "after": after})
     chk.traces += len(gens)
     chk.notes["subprocess_runs"] = n_sub
     chk.sample({"config": gens[17]["cfg"], "model": {k2: gens[17][k2] for k2 in ("out", "err", "status")}})
